@@ -7,7 +7,7 @@ def cchar(b):
     return "char(%d)" % (b if b < 128 else b - 256)
 
 
-def tu_source(g, gid=None, dflt=(), limits=None, ctx=(), postprec=(), defines=(), noval=(), nvterms=(), tkinds=None, alt_nts=()):
+def tu_source(g, gid=None, dflt=(), limits=None, ctx=(), postprec=(), defines=(), noval=(), nvterms=(), tkinds=None, alt_nts=(), ctxref=False):
     """g: gram.Grammar.  Terms are typed char terms with the observing functor, every rule gets RuleF{index}."""
     gid = gid or g.name
     o = ['#define %s' % d for d in defines] + ['#include "rt.hpp"', 'using namespace ctpg;', 'using vh::Node;', 'namespace G {',
@@ -54,7 +54,7 @@ def tu_source(g, gid=None, dflt=(), limits=None, ctx=(), postprec=(), defines=()
             named.append('vh::RuleF f%d{%d};' % (ri, ri))
             r = '%s >= f%d' % (r, ri)
         else:
-            r = '%s' % r if ri in dflt else ('%s >>= vh::RuleFC%s{%d}' % (r, nv, ri) if ri in ctx else '%s >= vh::RuleF%s{%d}' % (r, nv, ri))
+            r = '%s' % r if ri in dflt else ('%s >>= vh::RuleFC%s{%d}' % (r, nv or ('R' if ctxref and ri % 2 == 0 else ''), ri) if ri in ctx else '%s >= vh::RuleF%s{%d}' % (r, nv, ri))
         if post:
             r = '(%s)[%d]' % (r, prec)
         rl.append('        ' + r)
